@@ -230,20 +230,28 @@ class Heap:
     def __init__(self, tag="h0"):
         self.arrays: dict[tuple[str, str], object] = {}
         self.tag = tag
+        # after a havoc of "every field except `protected`" (opaque call, dictiter.havoc_all_but) a field array that is
+        # touched for the first time must get a name different from its entry-state name unless it is protected
+        self.protected = None
+        self.alt_tag = None
+        self.dirty: list = []  # (key, ref term or None) of every write/havoc since the enclosing loop head (stmts.loop)
 
     def copy(self):
         h = Heap(self.tag)
         h.arrays = dict(self.arrays)
+        h.protected, h.alt_tag = self.protected, self.alt_tag
         return h
 
     def get(self, owner, field, ty):
         key = (owner, field)
         if key not in self.arrays:
-            self.arrays[key] = z3.Const("%s_%s.%s" % (self.tag, owner, field), z3.ArraySort(z3.IntSort(), sym.sort_of(ty)))
+            tag = self.tag if (self.alt_tag is None or key in self.protected) else self.alt_tag
+            self.arrays[key] = z3.Const("%s_%s.%s" % (tag, owner, field), z3.ArraySort(z3.IntSort(), sym.sort_of(ty)))
         return self.arrays[key]
 
     def read(self, owner, field, ty, ref):
         return V(ty, z3.Select(self.get(owner, field, ty), ref))
 
     def write(self, owner, field, ty, ref, val):
+        self.dirty.append(((owner, field), ref))
         self.arrays[(owner, field)] = z3.Store(self.get(owner, field, ty), ref, val)
